@@ -2,6 +2,7 @@ package simrt
 
 import (
 	"errors"
+	"fmt"
 	"os"
 	"reflect"
 	"sync"
@@ -21,6 +22,7 @@ type WriteRec struct {
 	Meta   bool   // targets one of bbolt's two meta pages
 	Failed bool   // an injected error was returned for this write
 	Short  int    // >0: only this many bytes were written before the injected error
+	Path   string // name of the file at the time of the write (it may have been renamed since it was opened)
 }
 
 // FileLog is everything the disk knows about one bbolt file.
@@ -114,15 +116,37 @@ func BoltOpened(db *bbolt.DB, err error) (*bbolt.DB, error) {
 	if !f.IsValid() {
 		return db, errors.New("simrt: bbolt.DB.ops.writeAt not found (bbolt layout changed)")
 	}
+	// the descriptor identifies the file even after a rename
+	var file *os.File
+	if ff := reflect.ValueOf(db).Elem().FieldByName("file"); ff.IsValid() && ff.Kind() == reflect.Ptr {
+		file = *(**os.File)(unsafe.Pointer(ff.UnsafeAddr()))
+	}
 	slot := (*func([]byte, int64) (int, error))(unsafe.Pointer(f.UnsafeAddr()))
 	orig := *slot
 	*slot = func(b []byte, off int64) (int, error) {
-		return d.write(fl, db, orig, b, off)
+		return d.write(fl, db, file, orig, b, off)
 	}
 	return db, nil
 }
 
-func (d *Disk) write(fl *FileLog, db *bbolt.DB, orig func([]byte, int64) (int, error), b []byte, off int64) (int, error) {
+// statFile returns the current length and name of the file behind the DB handle.
+func statFile(file *os.File, fallback string) (int64, string) {
+	if file != nil {
+		if st, err := file.Stat(); err == nil {
+			name := fallback
+			if l, e := os.Readlink(fmt.Sprintf("/proc/self/fd/%d", file.Fd())); e == nil {
+				name = l
+			}
+			return st.Size(), name
+		}
+	}
+	if st, e := os.Stat(fallback); e == nil {
+		return st.Size(), fallback
+	}
+	return 0, fallback
+}
+
+func (d *Disk) write(fl *FileLog, db *bbolt.DB, file *os.File, orig func([]byte, int64) (int, error), b []byte, off int64) (int, error) {
 	d.mu.Lock()
 	idx := d.NWrite
 	d.NWrite++
@@ -153,18 +177,14 @@ func (d *Disk) write(fl *FileLog, db *bbolt.DB, orig func([]byte, int64) (int, e
 			}
 			rec.Short = n
 		}
-		if st, e := os.Stat(fl.Path); e == nil {
-			rec.FLen = st.Size()
-		}
+		rec.FLen, rec.Path = statFile(file, fl.Path)
 		d.mu.Lock()
 		fl.Writes = append(fl.Writes, rec)
 		d.mu.Unlock()
 		return n, errOf(d.FailErr)
 	}
 	n, err := orig(b, off)
-	if st, e := os.Stat(fl.Path); e == nil {
-		rec.FLen = st.Size()
-	}
+	rec.FLen, rec.Path = statFile(file, fl.Path)
 	d.mu.Lock()
 	fl.Writes = append(fl.Writes, rec)
 	d.mu.Unlock()
